@@ -144,8 +144,10 @@ fn judge_mesh(pts: &[Point3], faces: &[[u32; 3]], case: &Case, l: &mut Local) {
         match res {
             Ok(Ok((edges, lengths, face_edges, loops))) => {
                 let mut problems = Vec::new();
-                let e2: Vec<(u32, u32)> = edges.iter().map(|e| (e[0], e[1])).collect();
-                if e2 != r.edges {
+                let e2: Vec<(u32, u32)> = edges.iter().map(|e| ukey(e[0], e[1])).collect();
+                let mut sorted_edges = e2.clone();
+                sorted_edges.sort();
+                if sorted_edges != r.edges {
                     problems.push(format!("edge table {:?}", e2));
                 }
                 if lengths.len() != edges.len() || edges.iter().zip(lengths.iter()).any(|(e, len)| (d3(&pts[e[0] as usize], &pts[e[1] as usize]) - len).abs() > 1e-12) {
